@@ -1,7 +1,8 @@
 ----------------------------- MODULE BackendSched -----------------------------
 (* R2 for C16 (all backends): fault schedules applied to every bundled backend variant through its real constructor and an
    in-memory transport.
-     send b       a flush request whose map makes b in {0, 1, 3} batches (small per-batch settings)
+     send b       a flush request whose map makes b in {0, 1, 3, 9} batches (small per-batch settings; 9: more than one CloudWatch call)
+     sendc b      a dozen flush requests, one after the other, each with a context that is already cancelled when the call is made
      fail k o     the next k transport operations (HTTP attempts / dials and writes / CloudWatch calls) fail with outcome o:
                   500 | connerr | 429ra (429 with Retry-After 1) | slow (answered 500 after 2 s)
      adv d        virtual time advances d seconds (back-off, reconnect timers)
@@ -12,13 +13,16 @@ EXTENDS Naturals, Sequences, TLC, Json
 CONSTANTS MaxLen
 VARIABLE sched
 O(op, n, o) == [op |-> op, n |-> n, o |-> o]
-Ops == {O("send", b, "") : b \in {0, 1, 3}} \cup {O("fail", k, o) : k \in {1, 2, 9}, o \in {"500", "connerr", "429ra", "slow"}} \cup
+Ops == {O("send", b, "") : b \in {0, 1, 3, 9}} \cup {O("sendc", 1, "")} \cup {O("fail", k, o) : k \in {1, 2, 9}, o \in {"500", "connerr", "429ra", "slow"}} \cup
        {O("adv", d, "") : d \in {1, 4}} \cup {O("cancel", 0, "")}
 Core == {
   <<O("fail", 9, "slow"), O("send", 3, ""), O("cancel", 0, ""), O("adv", 4, "")>>,        \* cancelled while every request slot is busy
   <<O("fail", 9, "429ra"), O("fail", 9, "429ra"), O("fail", 9, "429ra"), O("send", 1, ""), O("adv", 4, ""), O("adv", 4, ""), O("adv", 1, "")>>,   \* the window ends while the server keeps saying retry-after
   <<O("fail", 9, "500"), O("fail", 9, "connerr"), O("fail", 9, "slow"), O("send", 3, ""), O("adv", 4, ""), O("adv", 4, ""), O("adv", 4, "")>>,
-  <<O("send", 3, ""), O("fail", 2, "connerr"), O("send", 1, ""), O("adv", 1, ""), O("send", 0, ""), O("adv", 4, "")>>
+  <<O("send", 3, ""), O("fail", 2, "connerr"), O("send", 1, ""), O("adv", 1, ""), O("send", 0, ""), O("adv", 4, "")>>,
+  <<O("fail", 9, "slow"), O("send", 9, ""), O("cancel", 0, ""), O("adv", 4, "")>>,          \* cancelled between the calls of a flush that needs several
+  <<O("sendc", 1, ""), O("adv", 1, ""), O("send", 1, "")>>,
+  <<O("fail", 2, "connerr"), O("sendc", 1, ""), O("adv", 4, "")>>
 }
 ASSUME \A c \in Core : PrintT(<<"CASE", ToJson([sched |-> c])>>)
 Init == sched = <<>>
